@@ -90,9 +90,33 @@ CHECKS["C16"] = {
     "note": "overstatement positions follow int(1/rate); interleaved order is the library's own (counts checked separately); "
             "card-level staging for assorters with upper bound 1; one known finding (prefix crossing only by the final-sample clamp)",
 }
+CHECKS["C17"] = {
+    "engine": "AuditWorld", "ref": "DESIGN.md 4 (C17, weak fit)",
+    "technique": "deterministic simulation of physical storage and its manifest with injected faults (unaccounted cards -> "
+                 "phantom batch, empty batches, oversized / undersized manifests, any retrieval order); oracle: the physical "
+                 "card fetched is the card designated, exactly once; shrinking + replay",
+    "text": "seeded search over storage layouts, bounds, vendor formats and retrieval orders covering the whole valid range of "
+            "sample numbers; weak fit for this technique (the lookup is a pure function; claimed for the manifest-shortfall "
+            "fault and as the seam to physical storage). Evidence, not proof.",
+    "note": "unique batch labels; each number sampled once; Dominion 1-based, Hart 0-based",
+}
+CHECKS["C18"] = {
+    "engine": "AuditWorld", "ref": "DESIGN.md 4 (C18, weak fit)",
+    "technique": "deterministic simulation of the export channel with fragmented / repeated / interleaved records and RAIRE "
+                 "files written to disk; oracle: ordered-map reference merge; shrinking + replay",
+    "text": "seeded search over record streams with every combination of phantom / pool / tally-pool values and over RAIRE "
+            "files with several contests; weak fit (tolerance to order / duplication of records in a stream). Evidence, not proof.",
+    "note": "boolean flags, string-or-None tally pools, duplicate-free rankings",
+}
+CHECKS["C19"] = {
+    "engine": "AuditWorld", "ref": "DESIGN.md 4 (C19, weak fit)",
+    "technique": "deterministic simulation of the Dominion export channel under re-serialisation faults (key order, mark order, "
+                 "duplicate marks, 'Modified' before 'Original', sessions split over files, obfuscated ids) read back under all "
+                 "option settings; oracle: reference importer written from the statement; shrinking + replay",
+    "text": "seeded search over voting-system records, serialisations (both layouts) and option settings; weak fit (tolerance to "
+            "order / duplication in a stream the library reads). Evidence, not proof.",
+    "note": "non-negative integer ranks; a contest at most once per session and data version; fewer than ten files per directory",
+}
 # claimed in DESIGN.md but not built yet: listed as not applicable *for now* with the honest reason
 NA_EXTRA = {
-    "C17": "check under construction (DESIGN 4)",
-    "C18": "check under construction (DESIGN 4)",
-    "C19": "check under construction (DESIGN 4)",
 }
